@@ -327,8 +327,18 @@ MethodExprs(N) ==
   \cup {<<"t", op, <<"b", lop, <<"b", ">", C(p[1]), K(0)>>, <<"b", "<", C(p[2]), K(2)>>>>, C(p[1]), K(7)>> :
            op \in {"if_else", "where"}, lop \in LogicOps, p \in Pairs(N)}
   \cup {<<"in", C(c), <<1, 3>>>> : c \in N}
+\* text methods of the catalogue over the text columns: results land in a text column (t) or a numeric one (z)
+TextExprsT(S) ==
+  {<<"cat", C(p[1]), C(p[2])>> : p \in Pairs(S)} \cup {<<"cat", C(c), <<"ks", 9>>>> : c \in S}
+  \cup {<<"trim", C(c), 0, 1>> : c \in S} \cup {<<"trim", C(c), 1, 2>> : c \in S}
+  \cup {<<"b", "coalesce", C(c), <<"ks", 7>>>> : c \in S}
+TextExprsZ(S) ==
+  {<<"mapv", C(c)>> : c \in S} \cup {<<"in", C(c), <<0, 7>>>> : c \in S}
+  \cup {<<"b", op, C(c), <<"ks", 0>>>> : op \in {"==", "!="}, c \in S}
+  \cup {<<"u", "is_null", C(c)>> : c \in S}
 ExtendSteps(cols) ==
-  IF Level = 3 THEN {<<"extend", <<<<"z", e>>>>>> : e \in MethodExprs(KindCols(cols, "n"))} ELSE
+  IF Level = 3 THEN {<<"extend", <<<<"z", e>>>>>> : e \in MethodExprs(KindCols(cols, "n")) \cup TextExprsZ(KindCols(cols, "s"))}
+                    \cup {<<"extend", <<<<"t", e>>>>>> : e \in TextExprsT(KindCols(cols, "s"))} ELSE
   LET N  == KindCols(cols, "n")
       Bc == KindCols(cols, "b")
       S  == KindCols(cols, "s")
